@@ -3,7 +3,6 @@ package nc
 import (
 	"fmt"
 	"go/constant"
-	"go/token"
 	"go/types"
 	"sort"
 	"strings"
@@ -262,16 +261,21 @@ func (c *c15) flatten(fn *ssa.Function, sm *Summary, prefix string, tab *wireTab
 
 // nodeByIdSlot: v selects, from a node list, the node whose Id equals one slot.
 func (c *c15) nodeByIdSlot(fn *ssa.Function, tm *Termer, sf *slotFinder, t *Term) (string, string) {
-	// NodeWithId(slot, nodes)
-	if t.Op == "call" && t.Name == "NodeWithId" && len(t.Args) == 2 {
+	return c.byIdSlot(fn, tm, sf, t, "NodeWithId", "node")
+}
+
+// byIdSlot: the selection by id, either through the selector function (NodeWithId / TraitWithId, decided by C15.0)
+// or by the same search written out as a loop in the reader.
+func (c *c15) byIdSlot(fn *ssa.Function, tm *Termer, sf *slotFinder, t *Term, selector, what string) (string, string) {
+	if t.Op == "call" && t.Name == selector && len(t.Args) == 2 {
 		if r, ok := sf.direct(t.Args[0]); ok {
 			return r.Slot, ""
 		}
-		return "", "NodeWithId is not called with a value read from the wire: " + t.String()
+		return "", selector + " is not called with a value read from the wire: " + t.String()
 	}
 	phi, ok := t.V.(*ssa.Phi)
 	if !ok {
-		return "", "the node is " + t.String() + ", not a lookup by id"
+		return "", "the " + what + " is " + t.String() + ", not a lookup by id"
 	}
 	slot := ""
 	seen := map[*ssa.Phi]bool{}
@@ -292,8 +296,20 @@ func (c *c15) nodeByIdSlot(fn *ssa.Function, tm *Termer, sf *slotFinder, t *Term
 				continue
 			}
 			et := tm.Of(e)
-			if et.Op != "elem" {
-				return "a candidate " + et.String() + " that is not an element of the node list"
+			if et.Op == "call" && et.Name == selector && len(et.Args) == 2 {
+				// the selector function on one path
+				r, ok := sf.direct(et.Args[0])
+				if !ok {
+					return selector + " is not called with a value read from the wire: " + et.String()
+				}
+				if slot != "" && slot != r.Slot {
+					return "candidates selected by two different wire values (" + slot + ", " + r.Slot + ")"
+				}
+				slot = r.Slot
+				continue
+			}
+			if et.Op != "elem" && et.Op != "next" {
+				return "a candidate " + et.String() + " that is not an element of the " + what + " list"
 			}
 			pred := ph.Block().Preds[i]
 			found := ""
@@ -317,7 +333,10 @@ func (c *c15) nodeByIdSlot(fn *ssa.Function, tm *Termer, sf *slotFinder, t *Term
 				}
 			}
 			if found == "" {
-				return "the candidate node is not selected by node.Id == <value read from the wire>"
+				return "the candidate " + what + " is not selected by " + what + ".Id == <value read from the wire>"
+			}
+			if why := c.selectionRestricted(fn, tm, sf, phi, pred, conds, et, found); why != "" {
+				return why
 			}
 			if slot != "" && slot != found {
 				return "candidates selected by two different wire values (" + slot + ", " + found + ")"
@@ -330,9 +349,97 @@ func (c *c15) nodeByIdSlot(fn *ssa.Function, tm *Termer, sf *slotFinder, t *Term
 		return "", why
 	}
 	if slot == "" {
-		return "", "no candidate node"
+		return "", "no candidate " + what
 	}
 	return slot, ""
+}
+
+// selectionRestricted: the node with the written id must be taken whenever the
+// search meets it. conds are the branch outcomes under which the candidate et
+// is assigned; one of them is `et.Id == <slot>`. Any further outcome decided
+// inside the search loop narrows the selection (`switch np.Id { case in: ..;
+// case out: .. }` assigns the second endpoint only when the id differs from
+// the first one: a self-loop gene reads back with a nil target). Accepted
+// besides the equality itself: the loop's own continuation test and nil tests
+// of the candidate or of the variable being selected (first match wins; ids
+// are unique in a written node list).
+func (c *c15) selectionRestricted(fn *ssa.Function, tm *Termer, sf *slotFinder, sel *ssa.Phi, pred *ssa.BasicBlock, conds []Guard, et *Term, slot string) string {
+	l := InnermostLoop(Loops(fn), pred)
+	if l == nil {
+		return ""
+	}
+	web := phiWeb(sel)
+	inWeb := func(t *Term) bool {
+		if ph, ok := t.V.(*ssa.Phi); ok && web.Phis[ph] {
+			return true
+		}
+		return false
+	}
+	for _, g := range conds {
+		if g.At == nil || !l.Blocks[g.At] || g.At == l.Header {
+			continue
+		}
+		gt := tm.Of(g.Cond)
+		if gt.Op == "bin" && (gt.Name == "==" || gt.Name == "!=") {
+			a, b := gt.Args[0], gt.Args[1]
+			if a.Op == "nil" {
+				a, b = b, a
+			}
+			if b.Op == "nil" && (a.String() == et.String() || inWeb(a)) {
+				continue
+			}
+			if gt.Name == "==" && g.True {
+				if !(a.Op == "field" && a.Name == "Id") {
+					a, b = b, a
+				}
+				if a.Op == "field" && a.Name == "Id" && a.Args[0].String() == et.String() {
+					if r, ok := sf.direct(b); ok && r.Slot == slot {
+						continue
+					}
+				}
+			}
+		}
+		outcome := "false"
+		if g.True {
+			outcome = "true"
+		}
+		if gt.Op == "bin" && len(gt.Args) == 2 {
+			// name the wire slots in the message (scan targets have no readable origin term)
+			show := func(x *Term) string {
+				if r, ok := sf.direct(x); ok {
+					return "<wire slot " + r.Slot + ">"
+				}
+				return x.String()
+			}
+			gt = &Term{Op: "bin", Name: gt.Name, Args: []*Term{{Op: "const", Name: show(gt.Args[0])}, {Op: "const", Name: show(gt.Args[1])}}}
+		}
+		return fmt.Sprintf("the node whose Id equals the written id (%s) is taken only when, in addition, %s is %s (%s): a written record for which that does not hold is restored with a nil node (e.g. a gene whose source and target are the same node)",
+			slot, gt, outcome, c.p.Pos(g.Cond.Pos()))
+	}
+	return ""
+}
+
+// splitSelections: the alternatives of t, keeping a phi together when it merges list elements (a search loop).
+func splitSelections(t *Term) []*Term {
+	if t == nil {
+		return nil
+	}
+	if t.Op == "iface" {
+		return splitSelections(t.Args[0])
+	}
+	if t.Op != "phi" {
+		return []*Term{t}
+	}
+	for _, a := range t.Alternatives() {
+		if a.Op == "elem" || a.Op == "next" {
+			return []*Term{t}
+		}
+	}
+	var out []*Term
+	for _, a := range t.Args {
+		out = append(out, splitSelections(a)...)
+	}
+	return out
 }
 
 // readerForm classifies what the reader puts at a table path; returns the slot it comes from.
@@ -370,6 +477,17 @@ func (c *c15) readerForm(fn *ssa.Function, tm *Termer, sf *slotFinder, e wireEnt
 					return "", "TraitWithId is not called with a value read from the wire: " + a.String()
 				}
 				if !set(r.Slot) {
+					return
+				}
+				continue
+			}
+			if _, isPhi := a.V.(*ssa.Phi); isPhi {
+				// the search of TraitWithId written out in the reader
+				s, w := c.byIdSlot(fn, tm, sf, a, "TraitWithId", "trait")
+				if w != "" {
+					return "", w
+				}
+				if !set(s) {
 					return
 				}
 				continue
@@ -532,6 +650,19 @@ func (c *c15) recordPair(label string, tab *wireTable, wfn *ssa.Function, wsubj 
 		if e.form == "nodeById" {
 			alts = robj.raw[e.path]
 		}
+		if e.form == "traitById" {
+			// flattened alternatives unless one of them is the element of a list (a search loop in the reader): then
+			// the selection loop has to be inspected, which needs the phis
+			for _, a := range alts {
+				if a.Op == "elem" || a.Op == "next" {
+					alts = nil
+					for _, rt := range robj.raw[e.path] {
+						alts = append(alts, splitSelections(rt)...)
+					}
+					break
+				}
+			}
+		}
 		if len(alts) == 0 {
 			r.Bad(cons, rpos, fmt.Sprintf("%s is written (slot %s) but %s never restores it", e.path, ws.slot, rfn.Name()))
 			continue
@@ -622,7 +753,7 @@ func (c *c15) checkSeparators(label string, items []fmtItem, pos string) {
 
 // C15 — everything the library writes it reads back unchanged.
 func C15(p *Prog, r *Run) {
-	r.Explanation = "Decided, per wire format, is the identity reader-slot-map ∘ writer-slot-map on the genetic fields: for every field the property names (gene: innovation and mutation number, enabled flag, weight, recurrence flag, endpoints by node id, trait by id; node: id, neuron type, activation type, trait; trait: id and every parameter; module gene: control node, numbers, flag, inputs and outputs in order) the writer puts it into exactly one slot (format-verb position, split-line column, or YAML key) in a form that reads back exactly (%g/%v for floats, no width or precision, ids guarded against nil traits), and the reader restores the same field from the same slot through the inverse lookup (TraitWithId / node selection by Id / activation and neuron names through inverse tables) without narrowing conversions. Further: the genome framing (keywords, line breaks, section order, genome id), the organism header line, the population re-framing (every re-framed line ends in a newline before the next write), gob encode/decode sequences of experiment, trial, generation and champion (same order, same guards), and the solver-model field mapping through its JSON struct. Not decided: float fidelity inside fmt, yaml.v3, encoding/json and encoding/gob (trusted to round-trip float64 exactly); semantic equality of whole documents."
+	r.Explanation = "Decided, per wire format, is the identity reader-slot-map ∘ writer-slot-map on the genetic fields: for every field the property names (gene: innovation and mutation number, enabled flag, weight, recurrence flag, endpoints by node id, trait by id; node: id, neuron type, activation type, trait; trait: id and every parameter; module gene: control node, numbers, flag, inputs and outputs in order) the writer puts it into exactly one slot (format-verb position, split-line column, or YAML key) in a form that reads back exactly (%g/%v for floats, no width or precision, ids guarded against nil traits), and the reader restores the same field from the same slot through the inverse lookup (TraitWithId / node selection by Id / activation and neuron names through inverse tables) without narrowing conversions. Further: the genome framing (keywords, line breaks, section order, genome id), the organism header line, the population re-framing (every re-framed line ends in a newline before the next write), gob encode/decode sequences of experiment, trial, generation and champion (same order, same guards), and the solver-model field mapping through its JSON struct. Selections by id written out as loops must take the matching element whenever they meet it (no further condition inside the search); the YAML record readers must receive trait/node lists that are already complete; the bytes MarshalBinary returns and the population re-framing buffer must live in memory private to the call (no pooled or borrowed storage). Not decided: float fidelity inside fmt, yaml.v3, encoding/json and encoding/gob (trusted to round-trip float64 exactly); semantic equality of whole documents."
 	c := &c15{r: r, p: p, sums: NewSummaries(p)}
 
 	r.Rule("C15.0", "the id-based selectors used by every reader return nil or the list element whose Id equals the requested id", func() {
@@ -792,14 +923,29 @@ func (c *c15) plainTrait() {
 	rfn := p.Func(PkgG, "readPlainTrait")
 	r.Fn(FuncName(wfn), FuncName(rfn))
 	wtm, rtm := NewTermer(wfn), NewTermer(rfn)
-	wcalls, und := fmtCalls(wfn)
+	// the writer may pick the format of one Fprintf among constants (`"%g "` / `"%g"` for the last parameter):
+	// every alternative of every call is decided like a call of its own
+	wcallsAlt, und := fmtCallsAlt(wfn, true)
 	rcalls, und2 := fmtCalls(rfn)
 	if len(und)+len(und2) > 0 {
 		r.Undecided(label, p.Pos(wfn.Pos()), "a fmt call with a non-constant format or argument list")
 		return
 	}
+	var wcalls []fmtCall
+	for _, fc := range wcallsAlt {
+		if len(fc.Formats) <= 1 {
+			wcalls = append(wcalls, fc)
+			continue
+		}
+		for _, f := range fc.Formats {
+			one := fc
+			one.Format, one.Formats = f, []string{f}
+			wcalls = append(wcalls, one)
+		}
+	}
 	loopsW, loopsR := Loops(wfn), Loops(rfn)
 	idW, parW, idR, parR := 0, 0, 0, 0
+	idSites := map[ssa.Instruction]bool{}
 	for _, fc := range wcalls {
 		if fc.Kind != "printf" || len(fc.Args) != 1 {
 			r.Bad(label+".writer.shape", p.Pos(fc.Call.Pos()), "unexpected print call in the trait writer")
@@ -812,7 +958,10 @@ func (c *c15) plainTrait() {
 		okText := len(v) == 1 && items[0].Verb != 0 && (len(items) == 1 || (len(items) == 2 && items[1].Literal == " "))
 		switch {
 		case t.String() == "p1.Id" && !inLoop:
-			idW++
+			if !idSites[fc.Call] {
+				idW++ // one site, whatever the number of format alternatives (each alternative is checked below)
+			}
+			idSites[fc.Call] = true
 			ok, why := verbFaithful(v[0], types.Typ[types.Int])
 			r.Check(ok && okText && len(items) == 2, label+".Id.writer", p.Pos(fc.Call.Pos()), "trait id written first, followed by a blank", "trait id: "+why+" / not followed by exactly one blank")
 		case t.Op == "elem" && t.Args[0].String() == "p1.Params" && inLoop:
@@ -850,28 +999,11 @@ func (c *c15) plainTrait() {
 			// index = loop counter 0,1,..,< NumTraitParams
 			l := InnermostLoop(loopsR, fc.Call.Block())
 			okIdx := false
-			if ia, ok := fc.Args[0].(*ssa.IndexAddr); ok {
-				if ph, ok := ia.Index.(*ssa.Phi); ok && ph.Block() == l.Header {
-					init, step := false, false
-					for i, e := range ph.Edges {
-						if !l.Blocks[ph.Block().Preds[i]] {
-							if k, ok := e.(*ssa.Const); ok && k.Value != nil && k.Value.ExactString() == "0" {
-								init = true
-							}
-						} else if b, ok := e.(*ssa.BinOp); ok && b.Op == token.ADD && b.X == ph {
-							if k, ok := b.Y.(*ssa.Const); ok && k.Value != nil && k.Value.ExactString() == "1" {
-								step = true
-							}
-						}
-					}
-					bound := false
-					if iff, ok := l.Header.Instrs[len(l.Header.Instrs)-1].(*ssa.If); ok {
-						if b, ok := iff.Cond.(*ssa.BinOp); ok && b.Op == token.LSS && b.X == ph {
-							bt := rtm.Of(b.Y)
-							bound = (bt.Op == "const" && bt.Name == nParams) || bt.String() == "len(NewTrait().Params)"
-						}
-					}
-					okIdx = init && step && bound
+			if ia, ok := fc.Args[0].(*ssa.IndexAddr); ok && l != nil {
+				// the index is the counter of a loop over 0..NumTraitParams-1 (`for i := 0; i < N; i++` or `for i := range nt.Params`)
+				if idx, bnd, okc := countsUp(l); okc && ia.Index == idx {
+					bt := rtm.Of(bnd)
+					okIdx = (bt.Op == "const" && bt.Name == nParams) || bt.String() == "len(NewTrait().Params)"
 				}
 			}
 			r.Check(okV && okIdx, label+".Params.reader", p.Pos(fc.Call.Pos()), "parameters 0..NumTraitParams-1 scanned with %g into Params[i]",
